@@ -1,9 +1,29 @@
+import os
+
 from ..runner import Harness, Spec
 
 _PKG = "exporter/exporterhelper/internal/queuebatch"
 
+def _post(ctx):
+    """evidence: how often the driver's re-lock-order search (several producers woken by one Broadcast) was cut short.
+    Such a step is NOT a difference: the implementation's line is accepted and the case is not diffed any further."""
+    n = 0
+    for hname in ("queue", "persistent"):
+        p = os.path.join(ctx.scratch, hname, "model.txt")
+        try:
+            with open(p) as f:
+                for line in f:
+                    if line.startswith("stat lockorder_exhausted"):
+                        n += int(line.split()[2])
+        except OSError:
+            pass
+    ctx.cov["stats"].setdefault("driver", {})["lockorder_exhausted"] = n
+    ctx.log("re-lock-order searches cut short (accepted, not diffed): %d" % n)
+
+
 SPEC = Spec(
     pid="C02",
+    post=_post,
     lean_modules=["OtelVerif.Props.C02"],
     harnesses=[
         Harness(name="cond", module="exporter", pkg=_PKG, files={"zz_verif_c02_cond_test.go": "c02/cond_test.go"},
@@ -15,7 +35,9 @@ SPEC = Spec(
         Harness(name="soak", module="exporter", pkg=_PKG, files={"zz_verif_c02_soak_test.go": "c02/soak_test.go", "zz_verif_c02_queue_test.go": "c02/queue_test.go"},
                 test="TestVerifC02Soak", driver="drv_c02", go="go1.26", n={"quick": 300, "thorough": 30000}, timeout_s=1500),
         Harness(name="config", module="exporter", pkg="exporter/exporterhelper/internal", files={"zz_verif_c02_config_test.go": "c02/config_test.go"},
-                test="TestVerifC02Config", driver="drv_c02", go="go1.26", n={"quick": 1500, "thorough": 30000}, timeout_s=1500),
+                test="TestVerifC02Config", driver="drv_c02", go="go1.26", n={"quick": 1500, "thorough": 30000}, timeout_s=1500,
+                mod_append=["require go.opentelemetry.io/collector/pipeline/xpipeline v0.124.0",
+                            "replace go.opentelemetry.io/collector/pipeline/xpipeline => $REPO/pipeline/xpipeline"]),
     ],
     rule="cond: the real cond with a scheduler-controlled sync.Locker in a synctest bubble; random schedules of start/grant/cancel over "
          "1-4 waiters and 1-4 signallers/broadcasters (4-32 labels + a finishing phase; corpus cases 0-1 = the design-phase deadlock "
@@ -30,7 +52,8 @@ SPEC = Spec(
          "event log judged by the Lean monitor soakAll. config: the exporter is built through the real constructors (NewBaseExporter + WithQueueBatchSettings "
          "+ WithQueueBatch / WithBatcher in both orders -> NewQueueSender -> newQueueBatchConfig -> newQueueBatch -> obsQueue -> asyncQueue -> "
          "memoryQueue) over sizer (requests/items/bytes) x queue_size x legacy batcher on/off (+ its sizes) x sending_queue::batch on/off x "
-         "block_on_overflow x wait_for_result x consumers x queue enabled/disabled, multi-item requests, export blocked; the REPORTED queue "
+         "block_on_overflow x wait_for_result x consumers x queue enabled/disabled x signal (traces/metrics/logs/profiles), multi-item requests, "
+         "export blocked, a quarter of the exports failing when no batcher is on (wait_for_result outcomes); the REPORTED queue "
          "size/capacity gauges and every Send result are diffed against the memory-queue model instantiated from the configuration AS WRITTEN "
          "(capacity = queue_size, size = written sizer of the request); then the export is released and everything must drain to size 0. "
          "queue/persistent scripts also contain: corpus cases 0-1 (head-of-line witness; Shutdown with two blocked producers), burst labels, "
@@ -61,7 +84,8 @@ SPEC = Spec(
         "fit; space is freed with Broadcast since c2c5f2c26) and after Shutdown nobody stays blocked (c38015a9a); C02_drain_releases_all "
         "is existential (some schedule), 'eventually in every run' additionally needs scheduler/mutex fairness and consumers that keep completing",
         "when a Broadcast wakes several producers their re-lock order is the scheduler's: the driver searches the orders (scheduler order "
-        "first, node budget 4000) for the outcome the implementation showed; hidden-state divergence (order of re-registration) is possible in principle",
+        "first, node budget 4000) for the outcome the implementation showed; a search cut short is NOT a difference: the implementation's line is "
+        "accepted, the case is not diffed any further (oracles keep running), the count is in input_distribution.driver.lockorder_exhausted",
         "persistent size theorems C02_persistent_size / _size_zero_when_all_finished are for a freshly started (empty) queue; for a queue "
         "restarted on arbitrary storage (stale si snapshot, lowered capacity) only C02_persistent_size_any_start holds: 0 <= size <= "
         "max(capacity, restored size), size <= sum(in flight) whenever nothing is queued, 0 when all finished - on the real code the "
